@@ -1006,6 +1006,17 @@ func (r *Runtime) checkObjectCoercible(v Value) {
 	}
 }
 
+// floatToInt64Mod32 converts a finite f to an int64 that is congruent to its integral part modulo 2^32
+// (and therefore modulo 2^16 and 2^8), as required by ToInt32, ToUint32 and the narrower conversions.
+// int64(f) is only defined for |f| < 2^63.
+func floatToInt64Mod32(f float64) int64 {
+	if f >= -9223372036854775808.0 && f < 9223372036854775808.0 {
+		return int64(f)
+	}
+	// f is an integer here and math.Mod is exact
+	return int64(math.Mod(f, 4294967296))
+}
+
 func toInt8(v Value) int8 {
 	v = v.ToNumber()
 	if i, ok := v.(valueInt); ok {
@@ -1015,7 +1026,7 @@ func toInt8(v Value) int8 {
 	if f, ok := v.(valueFloat); ok {
 		f := float64(f)
 		if !math.IsNaN(f) && !math.IsInf(f, 0) {
-			return int8(int64(f))
+			return int8(floatToInt64Mod32(f))
 		}
 	}
 	return 0
@@ -1030,7 +1041,7 @@ func toUint8(v Value) uint8 {
 	if f, ok := v.(valueFloat); ok {
 		f := float64(f)
 		if !math.IsNaN(f) && !math.IsInf(f, 0) {
-			return uint8(int64(f))
+			return uint8(floatToInt64Mod32(f))
 		}
 	}
 	return 0
@@ -1084,7 +1095,7 @@ func toInt16(v Value) int16 {
 	if f, ok := v.(valueFloat); ok {
 		f := float64(f)
 		if !math.IsNaN(f) && !math.IsInf(f, 0) {
-			return int16(int64(f))
+			return int16(floatToInt64Mod32(f))
 		}
 	}
 	return 0
@@ -1099,7 +1110,7 @@ func toUint16(v Value) uint16 {
 	if f, ok := v.(valueFloat); ok {
 		f := float64(f)
 		if !math.IsNaN(f) && !math.IsInf(f, 0) {
-			return uint16(int64(f))
+			return uint16(floatToInt64Mod32(f))
 		}
 	}
 	return 0
@@ -1114,7 +1125,7 @@ func toInt32(v Value) int32 {
 	if f, ok := v.(valueFloat); ok {
 		f := float64(f)
 		if !math.IsNaN(f) && !math.IsInf(f, 0) {
-			return int32(int64(f))
+			return int32(floatToInt64Mod32(f))
 		}
 	}
 	return 0
@@ -1129,7 +1140,7 @@ func toUint32(v Value) uint32 {
 	if f, ok := v.(valueFloat); ok {
 		f := float64(f)
 		if !math.IsNaN(f) && !math.IsInf(f, 0) {
-			return uint32(int64(f))
+			return uint32(floatToInt64Mod32(f))
 		}
 	}
 	return 0
